@@ -658,4 +658,63 @@ theorem pwalk_level_le {src : List Char} {M : Nat} {m : List (Nat × Nat)}
                 · rw [if_neg hbk] at h ⊢
                   exact ih _ _ _ _ hlv1 hlv2 h
 
+/-- **fuel**: a memo walk takes one unit of fuel per position it visits, and goes strictly forward —
+    any fuel above the distance it covers gives the same verdict (a replay in a nested frame runs on
+    LESS fuel than the walk that made the entries) -/
+theorem pwalk_fuel {src : List Char} {M : Nat} {m : List (Nat × Nat)}
+    (hf : ∀ k v, (k, v) ∈ m → k < v) (en : Bool) :
+    ∀ (n : Nat) (level : Int) (p : Nat) (res : Option Bool) (x : Nat),
+      pwalk src M m en n level p = .done res x →
+      ∀ n', x - p + 1 ≤ n' → pwalk src M m en n' level p = .done res x := by
+  intro n
+  induction n with
+  | zero => intro level p res x h; simp [pwalk] at h
+  | succ n ih =>
+    intro level p res x h n' hn'
+    have hpx : p ≤ x := (pwalk_path en _ _ _ _ _ h).le hf
+    cases n' with
+    | zero => omega
+    | succ n' =>
+      unfold pwalk at h ⊢
+      cases hsl : slice src p M with
+      | error e => rw [hsl] at h; simp at h
+      | ok w =>
+        rw [hsl] at h
+        cases w with
+        | nil => exact h
+        | cons ch rest =>
+          simp only at h ⊢
+          by_cases hfd : ch = ']' ∧ level - 1 = 0
+          · rw [if_pos hfd] at h ⊢; exact h
+          · rw [if_neg hfd] at h ⊢
+            cases hl : m.lookup p with
+            | none => rw [hl] at h; simp at h
+            | some y =>
+              rw [hl] at h
+              simp only at h ⊢
+              have hpy : p < y := hf _ _ (lookup_mem hl)
+              by_cases hy : M < y
+              · rw [if_pos hy] at h; simp at h
+              · rw [if_neg hy] at h ⊢
+                have hyx : ∀ lv, pwalk src M m en n lv y = .done res x → y ≤ x :=
+                  fun lv hh => (pwalk_path en _ _ _ _ _ hh).le hf
+                by_cases hbk : ch = '['
+                · rw [if_pos hbk] at h ⊢
+                  by_cases hy0 : y = 0
+                  · rw [if_pos hy0] at h; simp at h
+                  · rw [if_neg hy0] at h ⊢
+                    by_cases hp : p = y - 1
+                    · rw [if_pos hp] at h ⊢
+                      have := hyx _ h
+                      exact ih _ _ _ _ h n' (by omega)
+                    · rw [if_neg hp] at h ⊢
+                      by_cases he : (!en) = true
+                      · rw [if_pos he] at h ⊢; exact h
+                      · rw [if_neg he] at h ⊢
+                        have := hyx _ h
+                        exact ih _ _ _ _ h n' (by omega)
+                · rw [if_neg hbk] at h ⊢
+                  have := hyx _ h
+                  exact ih _ _ _ _ h n' (by omega)
+
 end MdIt.Inline
